@@ -425,7 +425,7 @@ prop("C07",
      parts=[{"engine": "login"}, {"engine": "login", "race": True, "max_cases_per_child": 40}],
      floor={"quick": 400, "thorough": 12000},
      child_timeout={"quick": 600, "thorough": 7200},
-     race_violation_scope=["hopserver/", "authgrants/", "authkeys/"],
+     race_violation_scope=["hopserver/target.go", "authgrants/", "authkeys/"],
      rule="The real HopServer over a real transport.Server on the simulated network, real time, thunks.TimeNow a settable clock, "
           "thunks.StartCmd a recorder that really starts the (harmless) command, login(1) a recording stand-in found through "
           "PATH, probes the server may dial (TCP and unix) or must listen on (unix). Grants of every type (shell, command with "
@@ -439,8 +439,8 @@ prop("C07",
           "user and key of the right type and identical command text that is effective and unexpired at that clock value "
           "(bipartite matching, liberal at both time boundaries); nothing authorizes issuing grants; after the login the "
           "server's grant map holds nothing for (user, key); the same key cannot log in again, another key never. 14 directed "
-          "histories plus seeded ones. The race build runs the same histories under the race detector (scope: hopserver, "
-          "authgrants, authkeys frames). Non-trivial = a history played to the end with the oracle evaluated.",
+          "histories plus seeded ones. The race build runs the same histories under the race detector (scope: reports with a "
+          "frame in hopserver/target.go, authgrants/ or authkeys/ - the grant bookkeeping; other reports are listed as observations). Non-trivial = a history played to the end with the oracle evaluated.",
      level_text="Exploration by directed and generated grant/request histories against a reference ledger with a matching "
                 "oracle, observing process starts, dials, listeners and stored grants at the host boundary.",
      level_note="Sessions admitted by a listed key are not limited by grants and serve as principals and controls. Whether a "
